@@ -11,6 +11,7 @@ TRUSTED = [
     "tools/extract: route table of main(); the admin mux (/readyz, /admin/inject) is driven through the handler functions directly, and once behind real TLS / plain HTTP listeners configured like main()'s admin server",
     "the auto-unseal path is driven through loadVerifyConfigFile -> autoUnsealAwsLoop -> aws-sdk-go against a fake cloud inside the test process (instance-metadata service via AWS_EC2_METADATA_SERVICE_ENDPOINT; a TLS listener speaking secretsmanager.GetSecretValue under a throw-away CA, reached through the dialer and root pool of the test binary's http.DefaultTransport); only the loop's first attempt is observed",
     "regenerated table pubkey_writes (tools/extract/c09_pubkeys.go): shape of every assignment to KeymasterPublicKeys, syntactic (append(list, e.Public()) under the lexically held mutex)",
+    "the handshake model Model.Seal.handshake (which tls.Config.ClientAuth policy turns which presented certificate into which PeerCertificates / VerifiedChains, or refuses the handshake) is a model of crypto/tls, tied by the listener cases (8 quick, 75 thorough) only; certificates are names, a certificate verifies iff its issuer is in the pool and it has not expired; the handler-level connection records are built by the harness from real x509.Certificate values, the handler itself never verifies anything",
     "stage (e): time knobs are found by reflection over AppConfigFile (time.Duration fields, integer fields named after seconds / intervals); a periodic activity configured in any other way is not reached",
 ]
 
